@@ -502,3 +502,23 @@ func GenReq(r *core.Rand, t *Table, router string) Req {
 	}
 	return req
 }
+
+// HitReq builds a request that the given route admits (template-derived path, its method, satisfying headers).
+func HitReq(r *core.Rand, s *SvcSpec, rs *RouteSpec) Req {
+	req := Req{Hdr: map[string]string{}, Method: rs.Method, Class: "hit"}
+	req.Path = "/" + strings.Join(instantiate(r, Full(s, rs)), "/")
+	if len(rs.Consumes) > 0 {
+		c := rs.Consumes[0]
+		if c == "*/*" {
+			c = Medias[0]
+		}
+		req.HasCT, req.CT = true, c
+	}
+	for _, c := range rs.Conds {
+		req.Hdr[c] = "1"
+	}
+	if req.Method == "POST" || req.Method == "PUT" || req.Method == "PATCH" {
+		req.BodyLen = 5
+	}
+	return req
+}
